@@ -21,14 +21,17 @@ LOG (decisions)
     Top.v (functions, model).  The two facts the code does NOT check dynamically and the proof supplies:
     the outputs of one node are pairwise distinct values; initializer values never get a producer.
   - C17_deser_function_of_proto: the outcome depends on the proto only (the model has no file-system part).
-  - C17_ser_fixpoint_partial (PROVED): for every proto whose deserialized IR is well scoped (serializable_tm of
-    C03/TreeF.v: no dangling / duplicated / empty value names; duplicated initializers or attributes, stale
-    value_info, unsorted/cyclic nodes, trailing empty outputs are allowed) and idempotent leaf normalisation
-    (np_idem): deser (ser (deser p)) succeeds and serializes to the same proto.  The unconditional statement
-    (placeholders, duplicated/empty input names, unknown outputs: generalised unfolding C17/Tree2.v, symbolic
-    unfolding C17/PUnfold.v) is being proved; its component statements are validated by vm_compute on every
-    accepted case (see Fix2Defs.w2_parts / Tree2.fix2_statement_b) and Canon.model_fixpoint is compared with the
-    implementation on every case.
+  - C17_ser_fixpoint (FULL, PROVED, closed): for EVERY proto p: deser_model p = Ok (h,m) -> ser_model np h m =
+    Ok (h1,q) -> exists h' m' h'', deser_model q = Ok (h',m') /\\ ser_model np h' m' = Ok (h'',q).  The only
+    hypotheses are boolean contracts of the opaque leaf (de)serializers, evaluated by vm_compute on every case of
+    this check (hypotheses of the theorem are thereby shown non-vacuous on the generated stream): np_ok (payload
+    normalisation maps nothing to/from "no information"), np_idem (it is idempotent), leaf_fill_m (a non-input,
+    non-output initializer's normalised payload is unchanged by completing it from its tensor).  Proof files:
+    C17/Tree2.v (generalised unfolding: placeholders, duplicated/empty input names, unknown outputs), PUnfold.v
+    (the unfolding computed symbolically from the proto), Fix2Ser.v, Fix2Deser*.v, Fix2Pay.v, Fix2Real*.v
+    (deser p realises pu_m p), Fix2Wfs*.v (pu_m p is well formed), Fix2Glue.v, Fix2Nosbad.v, Fix2Final.v; built on
+    C03/IsoDeser*.v.  Every component statement (w2_parts, fix2_statement_b) is ALSO evaluated per case.
+    Intermediate theorems kept: C17_ser_fixpoint_wf2, C17_ser_fixpoint_partial.
   - Findings of the fixpoint clause: fixpoint-initializer-empty-value-info (fixed in /repo by 420823a; Model.fill_pay
     follows the fix) and reser-duplicate-initializer-bad-dtype (found by the proof attempt: a repeated initializer
     name attached the later tensor to the earlier value without reading its dtype, so to_proto(from_proto(p)) could
@@ -932,7 +935,7 @@ def correspondence(ck, terms: list, tag: str) -> tuple:
     files = []
     chunk = 150
     for i in range(0, len(terms), chunk):
-        text = S.CASE_HEADER + "From IRV Require Import C03.Tree C03.TreeF C17.Tree2 C17.PUnfold C17.Fix2Defs.\n" + (
+        text = S.CASE_HEADER + "From IRV Require Import C03.Tree C03.TreeF C03.PayFixDefs C17.Tree2 C17.PUnfold C17.Fix2Defs.\n" + (
             "Definition cases : list (list (N * N) * mproto * option obs * option (option mproto) * bool) :=\n  "
             + "[" + ";\n  ".join(terms[i:i + chunk]) + "].\n"
             "Eval vm_compute in (failing (fun c => let '(np, p, o, r, f) := c in agree_deser p o) cases).\n"
@@ -943,7 +946,8 @@ def correspondence(ck, terms: list, tag: str) -> tuple:
             "   match deser_model p with Ok (h, _) => inv_b h | Raise _ => true end) cases).\n"
             # the component statements of the unconditional fixpoint theorem, on this proto
             "Eval vm_compute in (failing (fun c => let '(np, p, o, r, f) := c in fix2_statement_b np p) cases).\n"
-            "Eval vm_compute in (failing (fun c => let '(np, p, o, r, f) := c in forallb (fun b => b) (w2_parts np p)) cases).\n")
+            "Eval vm_compute in (failing (fun c => let '(np, p, o, r, f) := c in\n"
+            "   np_ok np && np_idem np && forallb (fun b => b) (w2_parts np p)) cases).\n")
         files.append((f"{tag}_{i // chunk}", text))
     outs = ck.coq_eval_many(files)
     bad_d, bad_r, bad_f, bad_i, bad_s, bad_w = [], [], [], [], [], []
